@@ -1,15 +1,39 @@
 // C15 driver: GetCandidateTree.   case: cand <T A>    output: R <T result> I <T operand afterwards>
+// history: candh <T A> { <mode> ... }*   after the call on the first automaton every stage derives a further object and the call is repeated on it:
+//          0 <nf> f..  selective copy (transitions, not final states) of the current object + the given final states
+//          1 <nf> f..  the current object itself after EraseFinalStates + the given final states
+//          2 <nf> f..  selective copy of the last RESULT + the given final states
+//          5 <sym> <par> <k> c..   the current object itself after AddTransition
+//          output per stage:  V <T value of the object as read before the call> R <T> I <T>
 #include "common.hh"
 using namespace vd;
+typedef VATA::ExplicitTreeAut Aut;
 int main() {
 	std::string line;
 	while (std::getline(std::cin, line)) {
 		guarded([&]() {
-			Toks t(line); t.expect("cand"); TA a = readTA(t);
-			VATA::ExplicitTreeAut aut = mkAut(a);
-			VATA::ExplicitTreeAut r = aut.GetCandidateTree();
+			Toks t(line); std::string kind = t.word(); TA a = readTA(t);
+			if (kind != "cand" && kind != "candh") throw std::runtime_error("driver: unknown case kind");
+			std::unique_ptr<Aut> cur(new Aut(mkAut(a)));
 			std::ostringstream os;
-			os << "R " << showTA(obsAut(r)) << " I " << showTA(obsAut(aut));
+			Aut r = cur->GetCandidateTree();
+			os << "R " << showTA(obsAut(r)) << " I " << showTA(obsAut(*cur));
+			while (kind == "candh" && !t.done()) {
+				U mode = t.num();
+				if (mode == 5) {
+					U sym = t.num(), par = t.num(), k = t.num(); Aut::StateTuple tup; for (U i = 0; i < k; ++i) tup.push_back(t.num());
+					cur->AddTransition(tup, sym, par);
+				} else {
+					U nf = t.num(); std::vector<U> fin; for (U i = 0; i < nf; ++i) fin.push_back(t.num());
+					if (mode == 0) { std::unique_ptr<Aut> n(new Aut(*cur, true, false)); for (U f : fin) n->SetStateFinal(f); cur = std::move(n); }
+					else if (mode == 1) { cur->EraseFinalStates(); for (U f : fin) cur->SetStateFinal(f); }
+					else if (mode == 2) { std::unique_ptr<Aut> n(new Aut(r, true, false)); for (U f : fin) n->SetStateFinal(f); cur = std::move(n); }
+					else throw std::runtime_error("driver: unknown mode");
+				}
+				os << " V " << showTA(obsAut(*cur));
+				r = cur->GetCandidateTree();
+				os << " R " << showTA(obsAut(r)) << " I " << showTA(obsAut(*cur));
+			}
 			return os.str();
 		});
 	}
